@@ -141,7 +141,7 @@ def subject(case):
     y = np.linspace(0, 1, 8) if kind == "tsfr" else panelpool.labels_for(8, "str")
     Xa3 = (X3 + panelpool.panel_values(case["seed"] + 11, 8, c, t)) / 2.0
     data = {"X": X, "y": y, "Xa": panelpool.to_nested(Xa3) if case["container"] != "numpy3d" else Xa3}
-    s2 = dict(spec, random_state=rs, n_jobs=case.get("n_jobs", 1) or 1)
+    s2 = dict(spec, random_state=rs, n_jobs=case.get("n_jobs", 1))
     calls = {"predict": lambda e: e.predict(data["X"]), "predict_new": lambda e: e.predict(data["Xa"])}
     if kind != "tsfr":
         calls["predict_proba"] = lambda e: e.predict_proba(data["X"])
@@ -255,6 +255,56 @@ def oracle_reproducible(case, ctx):
     return discs
 
 
+def oracle_n_jobs(case, ctx):
+    """Equal parameters and random_state on equal data: the fitted estimator answers the same
+    whatever n_jobs is (threaded backend), on the training panel and on noisy new instances."""
+    import joblib
+
+    kind = case["kind"]
+    X3, cls, Xt3 = panelpool.two_frequency_panel(case["seed"], case["n"], case["t"], case["noise"], case["test_noise"], 12)
+    y = np.linspace(0, 1, len(cls)) + cls if kind == "tsfr" else np.array(["a", "b"])[cls]
+    X, Xt = (panelpool.to_nested(X3), panelpool.to_nested(Xt3)) if case["container"] == "nested" else (X3, Xt3)
+    ctx.label(kind)
+    ctx.label("n_jobs=%s" % case["n_jobs"])
+    outs = {}
+    with joblib.parallel_backend("threading"):
+        for nj in (1, case["n_jobs"]):
+            spec = {"kind": kind, "random_state": case["rs"], "n_jobs": nj, "max_ensemble_size": case["mes"],
+                    "n_estimators": case["n_estimators"]}
+            e = panelpool.build_classifier(spec)
+            r = sut(e.fit, X, y)
+            if isinstance(r, Raised):
+                if nj == 1:
+                    ctx.mark_rejected()
+                    return []
+                return [D("n_jobs_changes_result:%s.fit" % type(e).__name__, "n_jobs=1 fits, n_jobs=%s raises %r" % (nj, r))]
+            o = {"predict": sut(e.predict, Xt), "predict_train": sut(e.predict, X)}
+            if kind != "tsfr":
+                o["predict_proba"] = sut(e.predict_proba, Xt)
+            outs[nj] = (type(e).__name__, o)
+    ctx.mark_nontrivial(True)
+    name, o1 = outs[1]
+    _, o2 = outs[case["n_jobs"]]
+    discs = []
+    for m in sorted(o1):
+        if isinstance(o1[m], Raised) and isinstance(o2[m], Raised):
+            continue
+        if not res_eq(o1[m], o2[m]):
+            discs.append(D("n_jobs_changes_result:%s.%s" % (name, m), "%s seed=%d n=%d t=%d rs=%d n_jobs=%s vs 1: %s vs %s"
+                           % (kind, case["seed"], case["n"], case["t"], case["rs"], case["n_jobs"], _short(o2[m]), _short(o1[m]))))
+    return discs
+
+
+@st.composite
+def n_jobs_cases(draw):
+    kind = draw(st.sampled_from(["boss", "boss", "boss", "cboss", "iboss", "tsf", "rise", "stsf", "tsfr"]))
+    return {"kind": kind, "seed": draw(st.integers(0, 10 ** 6)), "n": draw(st.sampled_from([10, 12, 16])),
+            "t": draw(st.sampled_from([32, 40, 48])), "noise": draw(st.sampled_from([0.3, 0.5, 0.8])),
+            "test_noise": draw(st.sampled_from([0.8, 1.2, 1.6])), "rs": draw(st.integers(0, 50)),
+            "n_jobs": draw(st.sampled_from([2, 4, 2, 4, None])), "mes": draw(st.sampled_from([3, 10, 500])),
+            "n_estimators": draw(st.integers(2, 6)), "container": draw(st.sampled_from(["nested", "numpy3d"]))}
+
+
 # ------------------------------------------------------------------ strategies
 @st.composite
 def cases(draw, reproducible=False):
@@ -284,6 +334,7 @@ def subchecks():
     return [
         SubCheck("purity_and_repeatability", oracle_purity, cases(), quick=700, thorough=10000, shards_quick=10, shards_thorough=16),
         SubCheck("reproducibility_pickle_n_jobs", oracle_reproducible, cases(reproducible=True), quick=400, thorough=6000, shards_quick=12, shards_thorough=16),
+        SubCheck("n_jobs_invariance", oracle_n_jobs, n_jobs_cases(), quick=96, thorough=1600, shards_quick=16, shards_thorough=16),
     ]
 
 
